@@ -10,6 +10,8 @@ ENV = None
 #  pred: name of the executable trace predicate in the Lean driver
 #  module: Lean module with the property theorems (HLV/Props/<module>.lean)
 PROPS = {
+    "C01": dict(families=["order", "acq", "hist"], pred="C01"),
+    "C02": dict(families=["route", "acq", "panic"], pred="C02"),
     "C03": dict(families=["acq", "panic", "fault", "hist"], pred="C03"),
     "C04": dict(families=["acq"], pred="C04"),
     "C05": dict(families=["acq", "panic", "fault"], pred="C05"),
